@@ -655,8 +655,9 @@ impl SubscriptionActor {
 //@ ensures[C03] !old(self)@.deleted ==> pulled_ids(r.unwrap()@, old(self)@)
 //@ # C04: every deadline = hand-out instant + subscription ack deadline (within the rounding slack)
 //@ ensures[C04] !old(self)@.deleted ==> exists|now: Instant| pulled_deadlines(r.unwrap()@, now.v(), old(self).ack_deadline())
-//@ # C03: hand-out moves backlog -> outstanding in the same turn; nothing else changes
-//@ ensures[C03] !old(self)@.deleted ==> final(self)@.backlog =~= old(self)@.backlog.skip(r.unwrap()@.len() as int)
+//@ # C03: hand-out moves backlog -> outstanding in the same turn; nothing else changes. The same clause carries C01 and
+//@ # C08: a message leaves the backlog only as part of the response (lemma_fifo_pull and the no-loss lemma rest on it)
+//@ ensures[C03,C01,C08] !old(self)@.deleted ==> final(self)@.backlog =~= old(self)@.backlog.skip(r.unwrap()@.len() as int)
 //@ # every handed-out message is tracked as outstanding under its ack id (else it could never be redelivered: C01, C04)
 //@ ensures[C01,C04] !old(self)@.deleted ==> final(self)@.out =~= out_after_pull(old(self)@, r.unwrap()@)
 //@ ensures[C03] !old(self)@.deleted ==> final(self)@.next == old(self)@.next + r.unwrap()@.len() && !final(self)@.deleted
